@@ -561,8 +561,8 @@ func (t *Transaction) CheckLimits() error {
 	if len(t.Attributes) > MaxAttributes-len(t.Signers) {
 		return fmt.Errorf("too many attributes: %d, max is %d", len(t.Attributes), MaxAttributes-len(t.Signers))
 	}
-	if len(t.Scripts) > MaxAttributes {
-		return fmt.Errorf("too many witnesses: %d, max is %d", len(t.Scripts), MaxAttributes)
+	if len(t.Scripts) != len(t.Signers) {
+		return fmt.Errorf("%w: %d vs %d", ErrInvalidWitnessNum, len(t.Signers), len(t.Scripts))
 	}
 	for i := range t.Signers {
 		s := &t.Signers[i]
